@@ -397,7 +397,7 @@ def enum_dims(tier, shard, nshards):
 
     for shape in shapes:
         nd = len(shape)
-        dims = [None] + list(range(-nd, nd))
+        dims = [None] + (list(range(-nd, nd)) if nd else [0, -1])     # a 0-d tensor: dim 0 / -1 may be named
         tuples = []
         for k in range(1, nd + 1):
             for comb in itertools.combinations(range(nd), k):
